@@ -339,3 +339,11 @@ func init() {
 func init() {
 	debugRules["rc"] = func(c *Ctx, r *Report) { ruleRangeCoder(c, r, "") }
 }
+
+func init() {
+	debugRules["r7"] = func(c *Ctx, r *Report) {
+		ruleValidDictCap(c, r, "")
+		ruleSameSource(c, r, "")
+		ruleLoopAdvanceExact(c, r, "")
+	}
+}
